@@ -70,6 +70,39 @@ def ctc_logprob(logits, w, blank):
     return lse(alpha[S - 1], alpha[S - 2]) if S > 1 else alpha[0]
 
 
+def ctc_prefix_rec(logits, w, blank):
+    """CTC(w) by the prefix-probability recurrences CTCB / CTCNB stated in contracts/decoders.py (ctc_theory), transcribed
+    literally: B(t,w) = (B(t-1,w) (+) NB(t-1,w)) + x_t[blank];  NB(t,w) = (NB(t-1,w) + x_t[c]) (+) EXT(t-1, parent(w), c) with
+    EXT(t,v,c) = (B(t,v) + x[c]) (+) (NB(t,v) + x[c] unless v ends in c);  B(0,[]) = 0, everything else at t=0 is -inf."""
+    memo = {}
+
+    def B(t, w):
+        k = ('b', t, w)
+        if k not in memo:
+            if t == 0:
+                memo[k] = 0.0 if not w else NEG_INF
+            else:
+                memo[k] = lse(B(t - 1, w), NB(t - 1, w)) + logits[t - 1][blank]
+        return memo[k]
+
+    def ext(t, w, c):
+        xc = logits[t][c]
+        return lse(B(t, w) + xc, NB(t, w) + xc if (not w or w[-1] != c) else NEG_INF)
+
+    def NB(t, w):
+        k = ('n', t, w)
+        if k not in memo:
+            if t == 0 or not w:
+                memo[k] = NEG_INF
+            else:
+                c = w[-1]
+                memo[k] = lse(NB(t - 1, w) + logits[t - 1][c], ext(t - 1, w[:-1], c))
+        return memo[k]
+    T = len(logits)
+    w = tuple(w)
+    return lse(B(T, w), NB(T, w))
+
+
 def all_transcripts(T, nletters):
     out = [()]
     for k in range(1, T + 1):
@@ -206,6 +239,9 @@ def validate(max_T=3):
                 a, b = ctc_logprob(lg, w, 2), ctc_bruteforce(lg, w, 2)
                 if not (a == b or abs(a - b) < 1e-9):
                     bad.append((m, w, a, b))
+                c = ctc_prefix_rec(lg, w, 2)          # the recurrences used as the specification of the decoder proof
+                if not (c == b or abs(c - b) < 1e-9):
+                    bad.append((m, w, c, b, 'prefix recurrences'))
     return n, bad
 
 
